@@ -4545,6 +4545,7 @@ class Parser:
 
             paren = 1
             start = self._curr
+            end = self._prev
 
             while self._curr and paren > 0:
                 if self._curr.token_type == TokenType.L_PAREN:
@@ -7231,6 +7232,7 @@ class Parser:
         args = self._parse_function_args(alias=False)
         if not args:
             self.raise_error("Expected at least one argument")
+            return exp.Paren(this=None)
 
         # Wrapped so the connector keeps its precedence in the parent context
         return exp.Paren(this=connector(*args, copy=False))
@@ -10065,7 +10067,10 @@ class Parser:
             privilege_parts.append(self._curr.text.upper())
             self._advance()
 
-        this = exp.var(" ".join(privilege_parts))
+        if not privilege_parts:
+            self.raise_error("Expected a privilege")
+
+        this = exp.var(" ".join(privilege_parts) or "ALL")
         expressions = (
             self._parse_wrapped_csv(self._parse_column)
             if self._match(TokenType.L_PAREN, advance=False)
